@@ -97,7 +97,23 @@ func newPlugin() *schema.CallableSchema {
 			}
 			return "total", sumOut{Total: t}
 		})
-	return schema.NewCallableSchema(greet, sum)
+	// a map-based step with a payload-rich input that it echoes: maps with integer keys, nested collections, a nested
+	// object, an any-typed value - what the transport has to carry unchanged in both directions
+	echoObj := func(id string) *schema.ScopeSchema {
+		return schema.NewScopeSchema(schema.NewObjectSchema(id, map[string]*schema.PropertySchema{
+			"by_id":  prop(schema.NewMapSchema(schema.NewIntSchema(nil, nil, nil), str, nil, nil), true),
+			"nested": prop(schema.NewMapSchema(str, schema.NewListSchema(schema.NewIntSchema(nil, nil, nil), nil, nil), nil, nil), false),
+			"opt": prop(schema.NewObjectSchema(id+"Inner", map[string]*schema.PropertySchema{
+				"f": prop(schema.NewFloatSchema(nil, nil, nil), false),
+				"b": prop(schema.NewBoolSchema(), false),
+			}), false),
+			"anyv": prop(schema.NewAnySchema(), false),
+		}))
+	}
+	echo := schema.NewCallableStep[map[string]any]("echo", echoObj("EchoIn"),
+		map[string]*schema.StepOutputSchema{"success": schema.NewStepOutputSchema(echoObj("EchoOut"), nil, false)}, nil,
+		func(_ context.Context, i map[string]any) (string, any) { return "success", i })
+	return schema.NewCallableSchema(greet, sum, echo)
 }
 
 type call struct {
@@ -123,7 +139,13 @@ var (
 	cSumErr  = call{RunID: "d", Step: "sum", Input: map[string]any{"values": []any{}}}
 	cBadIn   = call{RunID: "e", Step: "greet", Input: map[string]any{"name": "this name is far too long"}}
 	cBadStep = call{RunID: "f", Step: "nope", Input: map[string]any{}}
-	cGreetS  = call{RunID: "g", Step: "greet", Input: map[string]any{"name": "Sig", "count": int64(1)}, Signal: true}
+	cEcho    = call{RunID: "h", Step: "echo", Input: map[string]any{
+		"by_id":  map[any]any{int64(1): "one", int64(2000): "two"},
+		"nested": map[string]any{"k": []any{int64(1), int64(2)}, "empty": []any{}},
+		"opt":    map[string]any{"f": 1.5, "b": true},
+		"anyv":   map[any]any{int64(7): "seven"},
+	}}
+	cGreetS = call{RunID: "g", Step: "greet", Input: map[string]any{"name": "Sig", "count": int64(1)}, Signal: true}
 )
 
 func sessions(tier string) []session {
@@ -136,6 +158,8 @@ func sessions(tier string) []session {
 		{Name: "2-concurrent-one-rejected", Groups: [][]call{{cBadIn, cSum}}, MaxDelay: 1},
 		{Name: "2-concurrent-same-step", Groups: [][]call{{cGreetA, cGreetB}}, MaxDelay: 1},
 		{Name: "1-greet-signal", Groups: [][]call{{cGreetS}}, MaxDelay: 1},
+		{Name: "1-echo-rich-payload", Groups: [][]call{{cEcho}}, MaxDelay: 0},
+		{Name: "v1-echo-rich-payload", V1: true, Groups: [][]call{{cEcho}}, MaxDelay: 0},
 		{Name: "2-concurrent-stream-fragmented", Stream: true, Fragment: true, Groups: [][]call{{cGreetA, cSumErr}}, MaxDelay: 0},
 		{Name: "2-serial-stream", Stream: true, Groups: [][]call{{cGreetB}, {cSum}}, MaxDelay: 1},
 		{Name: "v1-2-serial", V1: true, Groups: [][]call{{cGreetA}, {cSum}}, MaxDelay: 1},
@@ -188,7 +212,7 @@ func normalise(v any) any {
 
 func computeExpected() {
 	p := newPlugin()
-	for _, c := range []call{cGreetA, cGreetB, cSum, cSumErr, cBadIn, cBadStep, cGreetS} {
+	for _, c := range []call{cGreetA, cGreetB, cSum, cSumErr, cBadIn, cBadStep, cGreetS, cEcho} {
 		id, data, err := p.CallStep(context.Background(), "expect-"+c.RunID, c.Step, normalise(c.Input))
 		if err != nil {
 			want[c.RunID] = expected{Err: true}
@@ -292,7 +316,11 @@ func body(se *session) func() {
 			wg.Wait()
 		}
 		o.closeErr = cli.Close()
+		// The engine is done with this plugin: it lets go of both pipe ends, as it does when it reaps the plugin process.
+		// A message the server still tries to send then fails at once (EPIPE) instead of sitting in front of a reader
+		// that will never come until the server's own send timeout expires.
 		_ = c2s.Writer().Close()
+		_ = s2c.Reader().Close()
 	}
 }
 
